@@ -12,7 +12,9 @@ func init() {
 	register("C14", ruleC14WaitBeforePost, ruleC14StrategyTable, ruleC14SlotRoundTrip, ruleC14NestedWaits, ruleC14Immediate,
 		// goroutine discipline shared with C10/C13: Add before go, Done deferred, recover first
 		ruleC10GoClosures, ruleC13CapturedVars)
-	register("C20", ruleC20Cell, ruleC20SameMap, ruleC20Order, ruleC13FieldLocks)
+	register("C20", ruleC20Cell, ruleC20SameMap, ruleC20OptionsShared, ruleC20Order, ruleC13FieldLocks,
+		// SETVAR adds no column: the projection's Ommit arm (shared with C02)
+		ruleC02Keys)
 }
 
 func ruleC14WaitBeforePost(c *Ctx) {
@@ -810,4 +812,53 @@ func ruleC20Order(c *Ctx) {
 		}
 	}
 	c.Check(len(why) == 0, "c20.order", "evaluation-order", "-", "immediate registration; in-order slice loops for arguments, select items and rows", strings.Join(why, "; "))
+}
+
+
+// ruleC20OptionsShared: nested statements evaluate with the very Options object of the enclosing query.
+func ruleC20OptionsShared(c *Ctx) {
+	c.Doc("c20.options-shared", "variables (and constants, callbacks) live in the Options object: Prepare stores its options parameter itself into the new query (no copy), every call of Prepare in the module passes the enclosing query's options, and query copies carry the same pointer: a GETVAR/SETVAR inside a subquery, EXISTS, derived table, CTE or union branch sees the same register file")
+	prep := c.P.Func(modPath, "Prepare")
+	if prep == nil {
+		c.Unknown("c20.options-shared", "Prepare", "-", "anchor lost")
+		return
+	}
+	c.Fn("Prepare")
+	op := paramNameOfType(prep, "*Options")
+	ok, why, n := true, "", 0
+	allInstrs(prep, func(_ *ssa.BasicBlock, in ssa.Instruction) {
+		st, isSt := in.(*ssa.Store)
+		if !isSt {
+			return
+		}
+		fa, isFA := st.Addr.(*ssa.FieldAddr)
+		if !isFA || fieldName(fa.X.Type(), fa.Field) != "options" || !isNamedType(fa.X.Type(), modPath, "Query") {
+			return
+		}
+		n++
+		if p, isP := st.Val.(*ssa.Parameter); !isP || p.Name() != op {
+			ok, why = false, "Prepare stores "+NewTB().Of(st.Val).String()+" into the new query's options instead of its options parameter: nested statements get a different register file"
+		}
+	})
+	if n == 0 {
+		ok, why = false, "Prepare does not set the new query's options"
+	}
+	c.Check(ok, "c20.options-shared", "Prepare", c.P.Pos(prep.Pos()), "q.options = options (the parameter itself)", why)
+	// call sites
+	k := 0
+	for _, f := range c.P.pkgFuncs(modPath) {
+		allInstrs(f, func(_ *ssa.BasicBlock, in ssa.Instruction) {
+			call, isCall := in.(*ssa.Call)
+			if !isCall || call.Common().StaticCallee() != prep {
+				return
+			}
+			k++
+			t := NewTB().Of(call.Common().Args[2])
+			good := t.Op == "field" && t.Name == "options"
+			c.Check(good, "c20.options-shared", fmt.Sprintf("%s/Prepare#%d", c.P.funcKey(f), k), c.P.Pos(call.Pos()), "passes the enclosing query's options", "a nested statement is prepared with "+t.String()+" instead of the enclosing query's options")
+		})
+	}
+	if k < 4 {
+		c.Unknown("c20.options-shared", "Prepare/call-sites", "-", fmt.Sprintf("only %d call sites of Prepare found", k))
+	}
 }
